@@ -31,8 +31,19 @@ def w_tdmd(ctx, rng, idx):
         dims = [int(rng.integers(1, 4)) for _ in range(nd - 1)] + [int(rng.integers(300, 2600))]
         m = int(rng.integers(2, 6))
     N = int(np.prod(dims))
-    kind = int(rng.integers(0, 3))
-    if kind == 0:  # low-rank linear dynamics z_{k+1} = A z_k
+    kind = int(rng.integers(0, 4))
+    if kind == 3 and (N < 2 or m < 2):
+        kind = 1
+    if kind == 3:
+        # real oscillating data: z_k = Re(sum_j b_j mu_j^k) with complex mu_j - the DMD spectrum consists of complex-conjugate pairs and the
+        # mode coefficients are genuinely complex although every snapshot is real
+        p_ = int(rng.integers(1, min(N, m) // 2 + 1))
+        mu = rng.uniform(0.6, 1.1, size=p_) * np.exp(1j * rng.uniform(0.3, 2.8, size=p_))
+        Bc = rng.standard_normal((N, p_)) + 1j * rng.standard_normal((N, p_))
+        Z = 2.0 * np.real(Bc @ np.stack([mu ** k for k in range(m + 1)], axis=1))
+        thr = 1e-10
+        label = 'oscillating_real'
+    elif kind == 0:  # low-rank linear dynamics z_{k+1} = A z_k
         r = int(rng.integers(1, min(N, m) + 1))
         B = rng.standard_normal((N, r))
         lam = rng.uniform(0.3, 1.2, size=r) * np.sign(rng.standard_normal(r))
@@ -85,6 +96,15 @@ def w_tdmd(ctx, rng, idx):
             label += '_mixed_core_dtypes'
     if tall:
         label += '_tall'
+    if rng.random() < 0.15 and x.order >= 2:
+        # data of large amplitude held in the canonical form other routines hand over: right-orthonormal cores, the whole norm (2^47..2^60
+        # times the original) in the FIRST core - the snapshot core and everything derived from it is tiny in absolute terms
+        with probe.oracle():
+            amp = 2.0 ** int(rng.integers(47, 61))
+            x, y = x.copy().ortho_right(), y.copy().ortho_right()
+            x.cores[0] = x.cores[0] * amp
+            y.cores[0] = y.cores[0] * amp
+        label += '_large_amplitude_in_first_core'
     ctx.describe({'op': 'tdmd_exact/standard', 'dims': dims, 'snapshots': m, 'data': label, 'threshold': thr, 'ranks': x.ranks})
     call('tdmd.tdmd_exact', td.tdmd_exact, x, y, prop=P, refusals=(np.linalg.LinAlgError,), threshold=thr)
     call('tdmd.tdmd_standard', td.tdmd_standard, x, y, prop=P, refusals=(np.linalg.LinAlgError,), threshold=thr)
